@@ -336,6 +336,12 @@ func (dm *DMap) putOnCluster(e *env) error {
 }
 
 func (dm *DMap) writePutCommand(e *env) (*redis.StatusCmd, error) {
+	if e.putConfig.OnlyUpdateTTL {
+		// Expire only carries a new timeout. Forwarding it as DM.PUT would
+		// overwrite the value on the partition owner.
+		return protocol.NewPExpire(e.dmap, e.key, e.timeout).Command(dm.s.ctx), nil
+	}
+
 	cmd := protocol.NewPut(e.dmap, e.key, e.value)
 	switch {
 	case e.putConfig.HasEX:
